@@ -61,6 +61,17 @@ def restconctest():
     return dict(name="restconc", cmd=cmd, timeout=dict(quick=1500, thorough=10000), cleanup=d)
 
 
+def clienttest(test, name):
+    d = "/dev/shm/verif-ov-%s-%d" % (name, os.getpid())
+    def cmd(t):
+        return ["./conc/run.sh", d, "-count=1", "-timeout", "170m", "-run", "^%s$" % test, "./clientc"]
+    return dict(name=name, cmd=cmd, timeout=dict(quick=1500, thorough=10000), cleanup=d, replayable=(name == "clientmodel"))
+
+
+CLIENTMODEL = clienttest("TestClientModel", "clientmodel")
+CLIENT = clienttest("TestClient", "client")
+M5_TRUST = ["M5 (lean/Ldlm/Model/Client.lean) is a hand-written sequential model of client/client.go (renew map, renew timers, interval rule, rpcWithRetry) on top of M2 with zero-latency RPCs; grpc-go, sync.Map, time.Timer and select semantics are modelled, not verified",
+            "tie: random histories on the real client over an in-process recording transport to the real service in virtual time against the compiled model: RPCs emitted (method, request fields, instant, answer), panics, server listing, lease timers and the renew map compared after every operation; rpcWithRetry compared with the model's retry on every script of attempt outcomes up to a bound; built with the instrumented overlay so that goroutine panics are recorded instead of killing the run"]
 RESTMODEL = resttest("TestRestModel", "restmodel")
 REST = resttest("TestRest", "rest")
 RESTCONC = restconctest()
@@ -201,6 +212,23 @@ PROPS = {
         technique="Lean 4 proof (inductive invariants over all histories and over all schedules of a lock-step concurrent model; progress theorem) + differential correspondence of the gateway model + controlled-interleaving exploration of the instrumented gateway",
         trusted=M4_TRUST + CONC_TRUST,
     ),
+    "C19": dict(
+        modules=[P + "C19"],
+        theorems=[P + "C19." + t for t in ("interval_below_timeout", "interval_too_long", "rules_pinned", "all_rpcs_retried", "keeps_alive", "advance_only_good_renews", "unlock_leaves_others",
+                                          "unlock_removes_renewer", "second_hold_same_name_panics", "retry_at_most", "retry_only_on_unavailable", "retry_result_is_last", "retry_other_error_final",
+                                          "retry_unavailable_within_budget", "retry_unavailable_over_budget", "no_renew_after_return", "no_panic_from_race", "rpc_after_exit", "stop_never_stuck",
+                                          "old_stop_misses_busy_renewer")]
+                 + ["Ldlm.Client.cadv_alive", "Ldlm.Client.cstep_fine", "Ldlm.ClientConc.step_inv"]
+                 + ["Ldlm.Pins.pin_" + t for t in ("RenewerStart", "RenewerStop", "ClientUnlock", "ClientClose", "ClientRenew", "MaybeCreateRenewer", "MaybeRemoveRenewer", "RpcWithRetry")],
+        status={P + "C19.second_hold_same_name_panics": "states the code's behaviour K19a (known finding): several holds of one counting lock are NOT handled",
+                P + "C19.old_stop_misses_busy_renewer": "refutation witness for the Stop before repair 9e742fe",
+                P + "C19.keeps_alive": "uses hypothesis hr (restart preserves the reachability invariant; client histories contain no restart)"},
+        streams=[CLIENTMODEL, CLIENT],
+        level_text="M5 = the client's renew map and renew timers over M2. Proved: the renew interval is strictly below every lock timeout above the 10 s minimum (constants and operators regenerated from the source); for EVERY history of TryLock (timeout 0 or above the minimum) / Unlock / clock advance on an auto-renewing client, either the client died of the out-of-sync panic (K19a) or every hold that has a renewer is held at the server with its lease deadline after the next Renew and no renewer failed, and every RPC sent during an advance is a successful Renew (induction over the history and, inside an advance, over the renew instants; uses M2's lease theorems); Unlock removes exactly the renewer of its name and leaves every other name alone; the retry rule for all outcome sequences (at most MaxRetries+1 attempts, retried only on Unavailable, last outcome returned) and every RPC call site is inside rpcWithRetry (regenerated). Races (M5c): Unlock thread, Close thread and renew goroutine of the repaired Stop, one step per channel operation, any schedule: no Renew sent after Unlock/Close returned, no panic, the RPC only after the goroutine exited, Stop never stuck; the Stop before the repair has a kernel-checked failing schedule. Tied to the code by clientmodel (M5 vs the real client, RPC traces in virtual time; retry table; renewer retry path) and by the monitor + controlled-interleaving stream on the instrumented client.",
+        level_note="PARTIAL by K19a: the renew map is keyed by the lock name alone (regenerated fact renewMapKey), so a second auto-renewed hold of one counting lock panics in the caller - recorded, not repaired: keying by (name, key) changes what the repository's own tests store in and expect of the map. The Stop defect (Unlock/Close racing a busy renewer: Renew after Unlock returned, goroutine panic, send on closed channel) was found by the interleaving stream and repaired (fix: commit 9e742fe). Zero RPC latency in M5; real latency is covered only by the race model. Trusted: Lean kernel, hand-written M5/M5c/M2, the differential ties, Go channel/select/sync.Once semantics (modelled).",
+        technique="Lean 4 proof (invariant over all client histories with an inner induction over renew instants; retry rule by list induction; inductive invariant over all schedules of the Stop protocol) + differential correspondence of the client model + controlled-interleaving exploration of the instrumented client",
+        trusted=M5_TRUST + M2_TRUST + CONC_TRUST,
+    ),
     "C07": dict(
         modules=[P + "C07"],
         theorems=[P + "C07." + t for t in ("failed_inert", "timerKey_injective", "unlock_frame_locks", "renew_frame", "waitTimeout_frame")]
@@ -305,6 +333,7 @@ ENGINES = [
     dict(name="stack", path="/verif/harness/stack", serves_properties=["C11", "C14", "C16", "C18"], kind_free_text="end-to-end: real cmd/server + cmd/lock binaries over loopback with gRPC, REST and Go clients, signals, TLS/password matrix"),
     dict(name="conc", path="/verif/harness/concsrv", serves_properties=["C01", "C02", "C03", "C05", "C06", "C09", "C13"], kind_free_text="controlled interleavings of small concurrent programs on the instrumented real LockServer (tools/instr overlay + verifrt scheduler + DFS/PCT explorer), with model-independent monitors and crash-image snapshots"),
     dict(name="rest", path="/verif/harness/restc", serves_properties=["C15", "C20"], kind_free_text="REST gateway in process and in virtual time: model correspondence (TestRestModel vs Lean M4), paired real servers REST vs gRPC (TestRest C15), session life-cycle monitors (TestRest C20), controlled interleavings on the instrumented gateway (TestRestConc)"),
+    dict(name="client", path="/verif/harness/clientc", serves_properties=["C19"], kind_free_text="Go client over an in-process recording transport to the real service in virtual time: model correspondence (TestClientModel vs Lean M5: RPC traces, retry table, renewer retry path), monitors and controlled interleavings Unlock/Close vs renew goroutine (TestClient)"),
     dict(name="seq", path="/verif/harness/seq", serves_properties=["C01", "C03", "C04", "C07", "C08", "C10", "C12", "C13", "C18"], kind_free_text="sequential histories in virtual time: real LockServer (testing/synctest) vs Lean model M2 through the line protocol, plus model-independent monitors"),
 ]
 NOTES = "Every check = Lean proof obligations about a model + a correspondence run that ties the model to /repo's working tree. See DESIGN.md."
